@@ -269,3 +269,28 @@ V('c07-none-match', 'C07', 'C07.R1',
   'AttributeError')
 V('c07-case-sorted', 'C07', 'C07.R5',
   (OBJ, "            return sorted([case(k) for k in keys])", "            return [case(k) for k in sorted(keys)]"), 'sort-shape')
+
+# ---- C09 ------------------------------------------------------------------
+MOFF = 'pywbem/_mof_compiler.py'
+V('c09-pragma-none', 'C09', 'C09.R3',
+  (MOFF, "        if m is None:\n            ns_type = host = namespace = None\n        else:\n            ns_type = m.group(1) or None\n            host = m.group(2) or None\n            namespace = m.group(3) or None\n",
+         "        ns_type = m.group(1) or None\n        host = m.group(2) or None\n        namespace = m.group(3) or None\n"), 'p_compilerDirective')
+V('c09-unbound-cls', 'C09', 'C09.R4',
+  (MOFF, "        else:\n            cls = self.GetClass(inst.classname,\n                                namespace=ns,\n                                LocalOnly=False,\n                                IncludeQualifiers=True)\n\n        if \"Abstract\" in cls.qualifiers:",
+         "\n        if \"Abstract\" in cls.qualifiers:"), 'cls')
+V('c09-format', 'C09', 'C09.R7',
+  (MOFF, "\"path cannot be created from the instance: {1}\",", "\"path cannot be created from the instance: {}\","), 'format')
+V('c09-inst-typeerror', 'C09', 'C09.R1',
+  (MOFF, "        except (ValueError, TypeError) as ve:\n            raise MOFParseError(", "        except ValueError as ve:\n            raise MOFParseError("), 'p_instanceDeclaration')
+V('c09-unwrapped-create', 'C09', 'C09.R2',
+  (MOFF, "    try:\n        instpath = p.parser.handle.CreateInstance(inst, namespace=ns)\n    except CIMError as ce:\n        if ce.status_code == CIM_ERR_ALREADY_EXISTS:",
+         "    try:\n        instpath = p.parser.handle.CreateInstance(inst, namespace=ns)\n    except CIMError as ce:\n        if ce.status_code == CIM_ERR_FAILED:\n            instpath = p.parser.handle.CreateInstance(inst, namespace=ns)\n        elif ce.status_code == CIM_ERR_ALREADY_EXISTS:"),
+  'p_mp_createInstance')
+V('c09-token-regex', 'C09', 'C09.R5',
+  (MOFF, "    r'[+-]?0[xX][0-9a-fA-F]+'\n    t.value = int(t.value, 16)", "    r'[+-]?0[xX][0-9a-zA-Z]+'\n    t.value = int(t.value, 16)"), 't_hexValue')
+V('c09-binary-guard', 'C09', 'C09.R5',
+  (MOFF, "    if re.search(r'[2-9]', t.value) is not None:", "    if re.search(r'[3-9]', t.value) is not None:"), 't_binaryValue')
+V('c09-wrong-exc', 'C09', 'C09.R1',
+  (MOFF, "    if p is None:\n        raise MOFParseError(msg='Unexpected end of MOF')", "    if p is None:\n        raise SyntaxError('Unexpected end of MOF')"), 'SyntaxError')
+V('c09-swallow-wrap', 'C09', 'C09.R2',
+  (MOFF, "        # Handle exceptions from ModifyClass.\n        except CIMError as ce2:", "        # Handle exceptions from ModifyClass.\n        except MOFCompileError as ce2:"), 'p_mp_createClass')
